@@ -21,19 +21,21 @@ from harness.core import Machinery
 PID = 'C12'
 
 TIERS = {
-    'quick': dict(meshes4=200, pairs=24, triples=4, overlaps=8, meshes5=0, b3=60),
+    'quick': dict(meshes4=100, pairs=24, triples=4, overlaps=8, meshes5=0, b3=60),
     'thorough': dict(meshes4=None, pairs=10, triples=2, overlaps=4, meshes5=200, b3=400),
 }
 
 
-def b1_runs(ids4, p, w):
+def b1_runs(ids4, p, w, first_all=True):
     consts = dict(Thin=0, LinePer=0, TwinPer=0, PairPer=p['pairs'], TriplePer=p['triples'], OverlapPer=p['overlaps'])
     if ids4 is None:       # all 15 625 meshes: fewer draws per mesh (the replay below uses the full number)
         consts.update(PairPer=6, TriplePer=1, OverlapPer=2)
 
     def small():
         return ('MC_Routing 3 sites: all 125 meshes, ALL pairs of requests (<= 1 ROADM include each), triples, overlaps',
-                tlc.run('MC_Routing', cfg_file='MC_Routing_small.cfg', timeout=1800, tag='c12-mc3', workers=w))
+                tlc.run('MC_Routing', cfg_text=(tlc.SPEC / 'MC_Routing_small.cfg').read_text().replace('Thin = 1', 'Thin = 0')
+                        .replace('PairsFirstAll = TRUE', f'PairsFirstAll = {"TRUE" if first_all else "FALSE"}'),
+                        timeout=1800, tag='c12-mc3', workers=w))
 
     def four():
         if ids4 is None:
@@ -62,24 +64,20 @@ def run(chk):
     consts = dict(OneSrcDst=True, Thin=0, LinePer=0, TwinPer=0, PairPer=p['pairs'], TriplePer=p['triples'],
                   OverlapPer=p['overlaps'], Salt=salt)
     parts = ru.slices(ids4, 2048)              # bounded memory
-    big = None
-    if all4:                                   # the exhaustive 4-site run goes on beside the whole replay
-        small, four = b1_runs(None, p, max(2, ru.nworkers() // 2))
-        big = ru.background(four)
-        w = ru.share(4)
-        (n1, r1), jobs = ru.parallel(small, lambda: ru.generate(chk, parts[0], 'c12-gen4', workers=w, NSites=4, **consts))
-    else:
-        w = ru.share(3)
-        small, four = b1_runs(ids4, p, w)
-        (n1, r1), (n2, r2), jobs = ru.parallel(
-            small, four, lambda: ru.generate(chk, parts[0], 'c12-gen4', workers=w, NSites=4, **consts))
-        chk.add_mc(n2, r2)
-    chk.add_mc(n1, r1)
+    # B1 (two TLC runs) goes on beside everything else and is collected at the end
+    small, four = (b1_runs(None, p, max(2, ru.nworkers() // 2)) if all4
+                   else b1_runs(ids4[::3], p, ru.share(3), first_all=False))
+    # the generation (a TLC run) goes on while B3 is recorded here, in the main thread (time limits need it);
+    # B3 is judged in the same TLC pass as B2
+    gen_run = ru.background(lambda: ru.generate(chk, parts[0], 'c12-gen4', workers=ru.share(2), NSites=4, **consts))
+    recorded = b3(chk, p, random.Random(chk.seed + 3))
+    jobs = gen_run.result()
+    bg = [ru.background(small), ru.background(four)]
     chk.exhaustive = True
-    timing = dict(b1_and_first_generation=round(time.time() - t0, 1))
+    timing = dict(first_generation_and_b3_recording=round(time.time() - t0, 1))
     t1 = time.time()
     grouped = lambda b: bool(b['groups'])                        # noqa: E731
-    stats, traces, metas = ru.b2(chk, PID, jobs, keep=grouped)
+    stats, traces, metas = ru.b2(chk, PID, jobs, keep=grouped, extra=recorded)
     acc = [stats]
     ru.pipelined(parts[1:], lambda part: ru.generate(chk, part, 'c12-gen4', workers=ru.share(2), NSites=4, **consts),
                  lambda jb: acc.append(ru.merge_stats(acc.pop(), ru.b2(chk, PID, jb, keep=grouped)[0])))
@@ -109,13 +107,9 @@ def run(chk):
                                 oracle=b['info'], disjunction_error=ev['err'],
                                 observed=[dict(st=x['st'], sites=x['p']['sites']) for x in ev['res']]))
     t1 = time.time()
-    b3(chk, p, rng)
-    timing['b3'] = round(time.time() - t1, 1)
-    if big is not None:
-        t1 = time.time()
-        n2, r2 = big.result()
-        chk.add_mc(n2, r2)
-        timing['waited_for_exhaustive_b1'] = round(time.time() - t1, 1)
+    for f in bg:
+        chk.add_mc(*f.result())
+    timing['waited_for_b1'] = round(time.time() - t1, 1)
     chk.cov['timing_s'] = timing
     chk.assume('generated meshes: 4 (thorough also 5) ROADM sites, at least one link, fibre pairs of 50/140/300 km or 0 km '
                'amplifier-only patches; at most one pair of sites joined by two parallel link pairs - the code documents '
@@ -151,11 +145,6 @@ def b3(chk, p, rng):
     t = dict(name='meshV2:seeded-groups', n=bench.nsites, links=bench.arcs, opt=1, tol=0, ev=evs)
     traces.append(t)
     metas[t['name']] = meta
-    verdicts = ru.judge(traces, chk, 'c12-b3')
-    for t in traces:
-        chk.traces += ru.report(chk, PID, t, metas[t['name']], verdicts[t['name']], 'B3')
-        for b in metas[t['name']]:
-            chk.case((t['name'], str(b['reqs']), str(b['groups'])), nontrivial=True)
     chk.cov['b3_traces'] = len(traces)
     chk.cov['b3_batches'] = sum(len(t['ev']) for t in traces)
     chk.cov['b3_errors'] = sum(e['err'] for t in traces for e in t['ev'])
@@ -163,6 +152,7 @@ def b3(chk, p, rng):
     chk.sample(dict(kind='B3 shipped mesh V2 services (synchronisation vectors) through the real planning()',
                     requests=e['reqs'], groups=e['groups'], disjunction_error=e['err'],
                     observed=[dict(st=x['st'], sites=x['p']['sites']) for x in e['res']]), limit=4)
+    return traces, metas
 
 
 # ------------------------------------------------------------------------------------------------------ mutants
